@@ -291,6 +291,8 @@ def rows_key(rows):
 # --------------------------------------------------------------------------
 def check_case(ctx, drv, scr, idx, canon, alias, origin, want_cov=False):
     case = {"canonical": canon, "aliased": alias, "origin": origin}
+    if isinstance(canon, dict) and origin == "replay-history":
+        case["history"] = canon.get("_history")
     baseC, baseA = os.path.join(scr, f"C{idx}"), os.path.join(scr, f"A{idx}")
     os.makedirs(baseC)
     os.makedirs(baseA)
@@ -405,10 +407,80 @@ def check_case(ctx, drv, scr, idx, canon, alias, origin, want_cov=False):
                 ctx.corr_break("codebase.iter", case, sorted(oa["members"]), rep.get("iter"))
             out["model"] = {"cache": rep.get("cache"), "counted": rep.get("counted")}
         ctx.sample({"links": alias["links"], "files": sorted(alias["texts"]), "commands": {p: [e["file"] for e in es] for p, es in alias["platforms"].items()}})
+        # ---- history: a link is re-pointed and the tree analysed again in this process; the result must be the one a fresh
+        # analysis of the same tree gives (here: of a copy of the tree at another path, where no path was ever seen before)
+        if str(idx).isdigit() and int(idx) % 3 == 0 or origin == "replay-history":
+            hist = repoint_history(ctx, alias, rootA, baseA, plats, case)
+            if hist is not None:
+                out["history"] = hist
     finally:
         shutil.rmtree(baseC, ignore_errors=True)
         shutil.rmtree(baseA, ignore_errors=True)
     return out
+
+
+def repoint_history(ctx, alias, rootA, baseA, plats, case):
+    cands = []
+    for ln, tg in alias["links"]:
+        full = os.path.join(rootA, ln)
+        if not os.path.islink(full) or not os.path.isfile(os.path.realpath(full)):
+            continue
+        rp = os.path.realpath(full)
+        if not rp.startswith(rootA + "/"):
+            continue
+        others = [f for f in alias["texts"] if os.path.dirname(f) == os.path.dirname(os.path.relpath(rp, rootA))
+                  and os.path.join(rootA, f) != rp and fstree.suffix_of(os.path.basename(f)) == fstree.suffix_of(os.path.basename(rp))]
+        if others:
+            cands.append((ln, os.path.relpath(rp, rootA), sorted(others)))
+    if not cands:
+        return None
+    forced = case.get("history") if isinstance(case.get("history"), dict) else None
+    if forced and any(c[0] == forced["link"] for c in cands):
+        ln, old_t, others = next(c for c in cands if c[0] == forced["link"])
+        new_t = forced["new"] if forced["new"] in others else others[0]
+    else:
+        ln, old_t, others = ctx.rng.choice(cands)
+        new_t = ctx.rng.choice(others)
+    full = os.path.join(rootA, ln)
+    os.unlink(full)
+    os.symlink(os.path.relpath(os.path.join(rootA, new_t), os.path.dirname(full)), full)
+    ctx.count(key="history:link-repointed")
+    baseB = baseA + "_copy"
+    try:
+        shutil.copytree(baseA, baseB, symlinks=True)
+        rootB = os.path.join(baseB, "cb")
+        # the compilation databases name absolute paths: rewrite them for the copy
+        for f in os.listdir(rootB):
+            if f.endswith(".json"):
+                p = os.path.join(rootB, f)
+                t = open(p).read()
+                open(p, "w").write(t.replace(rootA, rootB))
+        try:
+            ob = observe(rootA, plats, excludes=alias.get("excludes", ()))
+            oc2 = observe(rootB, plats, excludes=alias.get("excludes", ()))
+        except Exception as e:  # noqa
+            ctx.notes.append(f"history step not analysable: {type(e).__name__}: {e}")
+            return None
+        bad = []
+        if ob["phys"] != oc2["phys"]:
+            bad.append(f"physical member files {ob['phys']} vs {oc2['phys']}")
+        for rel in sorted(set(ob["att"]) | set(oc2["att"])):
+            if ob["att"].get(rel) != oc2["att"].get(rel):
+                bad.append(f"attribution of {rel}: {str(ob['att'].get(rel))[:160]} vs {str(oc2['att'].get(rel))[:160]}")
+                break
+        if ob["setmap"] != oc2["setmap"]:
+            bad.append(f"setmap {ob['setmap']} vs {oc2['setmap']}")
+        tb = sorted(os.path.relpath(k, rootA) for k in ob["trees"])
+        tc = sorted(os.path.relpath(k, rootB) for k in oc2["trees"])
+        if tb != tc:
+            bad.append(f"parsed files {tb} vs {tc}")
+        if bad:
+            ctx.violation(f"after re-pointing the link {ln} from {old_t} to {new_t} the analysis repeated in the same process differs from the "
+                          f"analysis of an identical copy of the tree at another path (in process vs copy): " + "; ".join(bad[:2]),
+                          dict(case, history={"link": ln, "old": old_t, "new": new_t}))
+        return {"link": ln, "old": old_t, "new": new_t, "problems": bad}
+    finally:
+        shutil.rmtree(baseB, ignore_errors=True)
 
 
 EXTS: list = []
@@ -462,7 +534,10 @@ def replay(ctx, drv, case):
     EXTS[:] = sorted(set(e for l in FileLanguage._language_extensions.values() for e in l))
     with core.Scratch() as d:
         scr = os.path.realpath(str(d))
-        res = check_case(ctx, drv, scr, "r", case["canonical"], case["aliased"], "replay", want_cov=("coverage_files" in case))
+        if "history" in case:
+            case["canonical"] = dict(case["canonical"], _history=case["history"])
+        res = check_case(ctx, drv, scr, "r", case["canonical"], case["aliased"], "replay-history" if "history" in case else "replay",
+                         want_cov=("coverage_files" in case))
         res["violations"] = [w for w, _ in ctx.violations]
         res["known_findings"] = sorted(ctx.known_seen)
         return json.loads(json.dumps(res, default=str).replace(scr, "$SCRATCH"))
